@@ -151,6 +151,15 @@ func ParseResponse(data []byte, req *http.Request) (resp *Response, err error) {
 	if err != nil {
 		return nil, errors.Join(errInvalidResponse, fmt.Errorf("failed to read response: %w", err))
 	}
+	// The bytes come from a backing store that may have lost part of them. A body that ends
+	// before its announced length (or inside a chunk) must be noticed here, where the entry can
+	// still be treated as unreadable, and not while the client reads the response.
+	body, err := io.ReadAll(r.Body)
+	_ = r.Body.Close()
+	if err != nil {
+		return nil, errors.Join(errInvalidResponse, fmt.Errorf("incomplete body: %w", err))
+	}
+	r.Body = io.NopCloser(bytes.NewReader(body))
 	resp.Data = r
 	return resp, nil
 }
